@@ -24,6 +24,7 @@ import Apko.Proofs.Lemmas.FormatsIndex
 import Apko.Proofs.Lemmas.FormatsPasswd
 import Apko.Proofs.Lemmas.FormatsIdbSample
 import Apko.Proofs.Lemmas.FormatsCodec
+import Apko.Proofs.Lemmas.FormatsIdbTotal
 
 namespace Apko.C16
 open Apko Apko.Formats
@@ -250,15 +251,17 @@ example : canonText canonGroupLine (writeGroups [sampleGroup, noMembers]) = true
 /-! ## installed db -/
 
 set_option maxRecDepth 1000000 in
-/-- over the regenerated tables: the lines of `PackageToInstalled` are the `i:` line (printed with `%s`
-of a `[]string`, read with `splitRepeatedField`) plus rows that satisfy `tableOK` with the cases of
-`ParseInstalled`; every field of the record has a line -/
-theorem field_inverse_idb_table : idbTableOK idbRows idbCases = true := by decide
+/-- over the regenerated tables (one evaluation of both tables): the lines of `PackageToInstalled` are
+the `i:` line (printed with `%s` of a `[]string`, read with `splitRepeatedField`) plus rows that satisfy
+`tableOK` with the cases of `ParseInstalled`, every field of the record has a line; `F:` `M:` `R:` `a:`
+are the file cases (the parsed permissions reach `pkg.Files`), `Z:` has no case -/
+theorem field_inverse_idb_all : (idbTableOK idbRows idbCases && fileCasesOK idbCases) = true := by decide
 
-set_option maxRecDepth 1000000 in
-/-- over the regenerated switch: `F:` `M:` `R:` `a:` are the file cases (the parsed permissions reach
-`pkg.Files`), `Z:` has no case -/
-theorem field_inverse_idb_files : fileCasesOK idbCases = true := by decide
+theorem field_inverse_idb_table : idbTableOK idbRows idbCases = true := by
+  have := field_inverse_idb_all; simp only [Bool.and_eq_true] at this; exact this.1
+
+theorem field_inverse_idb_files : fileCasesOK idbCases = true := by
+  have := field_inverse_idb_all; simp only [Bool.and_eq_true] at this; exact this.2
 
 /-- `sortTarHeaders_parent_adjacent`: in the order `AddInstalledPackage` writes headers, every
 non-directory record is preceded by the record of its parent directory with only non-directory
@@ -383,5 +386,33 @@ theorem idb_read_write_full_fails : ¬ idb_read_write_full := by
   simp only [Res.ok.injEq, List.map_cons, List.map_nil, readBack, minimalIPkg, sortHeaders_nil, Option.getD_some] at h1
   revert h1
   decide
+
+/-! ## `AddInstalledPackage` is total on well-formed input -/
+
+/-- `sortTarHeaders` terminates on headers with clean relative names (the model's fuel `len + 2` is
+never exhausted: every nesting level passes a distinct record) … -/
+theorem sortTarHeaders_terminates (hs : List FileRec) (h : ∀ f ∈ hs, cleanRel f.name = true) :
+    ∃ out, sortHeaders hs = some out := sortHeaders_total hs h
+
+/-- … and the hypothesis is needed: one directory header "." exhausts every fuel (Go recurses until the
+stack overflows) -/
+theorem sortTarHeaders_dot_diverges : sortHeaders [dotDir] = none := sortHeaders_dot
+
+/-- well-formed packages whose checksum records are absent, `Q1…` or valid hex are always written -/
+theorem idb_write_total (c : Codec) (ips : List IPkg) (hwf : ∀ ip ∈ ips, WFIPkg ip = true)
+    (hcs : ∀ ip ∈ ips, ∀ f ∈ ip.files, csumOK f = true) :
+    ∃ t, renderInstalledAll c idbRows ips = .ok t :=
+  renderInstalledAll_total c idbRows ips (fun ip hip f hf => ⟨WFIPkg_files ip (hwf ip hip) f hf, hcs ip hip f hf⟩)
+
+/-- `idb_read_write` with the writer's success discharged -/
+theorem idb_read_write_total (c : Codec) (hc : c.Lawful) (ips : List IPkg) (hwf : ∀ ip ∈ ips, WFIPkg ip = true)
+    (hcs : ∀ ip ∈ ips, ∀ f ∈ ip.files, csumOK f = true) :
+    ∃ t, renderInstalledAll c idbRows ips = .ok t ∧
+      (linesFit defaultTokenMax (rawLines t) = true →
+        parseInstalled c idbCases idbGuarded t = .ok (ips.map readBack)) := by
+  obtain ⟨t, ht⟩ := idb_write_total c ips hwf hcs
+  exact ⟨t, ht, idb_read_write c hc ips t ht hwf⟩
+
+example : sampleFiles.all csumOK = true := by decide
 
 end Apko.C16
